@@ -86,6 +86,41 @@ func c19Dict(r *rand.Rand, depth int) Val {
 	return Dict(keys, vals)
 }
 
+// c19Rich: objects with several keys at every structural position: inside arrays, inside
+// arrays of arrays, as values of objects inside arrays (every decoding path must keep key order)
+func c19Rich(r *rand.Rand, depth int) Val {
+	obj := func(d int) Val {
+		n := 3 + r.Intn(4)
+		keys := []string{}
+		vals := []Val{}
+		perm := r.Perm(12)
+		for i := 0; i < n; i++ {
+			keys = append(keys, fmt.Sprintf("k%d", perm[i]))
+			switch {
+			case d > 0 && r.Intn(3) == 0:
+				vals = append(vals, c19Rich(r, d-1))
+			case d > 0 && r.Intn(4) == 0:
+				vals = append(vals, List(c19Rich(r, d-1), Num(float64(i))))
+			default:
+				vals = append(vals, c19Value(r, 0))
+			}
+		}
+		return Dict(keys, vals)
+	}
+	items := []Val{}
+	for i := 0; i < 2+r.Intn(3); i++ {
+		if r.Intn(4) == 0 {
+			items = append(items, List(obj(depth-1), obj(0)))
+		} else {
+			items = append(items, obj(depth-1))
+		}
+	}
+	o := obj(0)
+	o.KeysR = append(o.KeysR, BytesOf("列"))
+	o.Items = append(o.Items, List(items...))
+	return o
+}
+
 const c19Caught = "<<caught>>"
 
 func c19Handler() string { return "\n拦截异常：\n\t输出“" + c19Caught + "”\n" }
@@ -120,6 +155,9 @@ func checkC19(c *Ctx) {
 	vals := make([]Val, n)
 	for i := range vals {
 		vals[i] = c19Dict(rng, 3)
+		if i%4 == 1 {
+			vals[i] = c19Rich(rng, 2)
+		}
 		if i%40 == 0 { // inject a non-finite number somewhere
 			nf := []float64{math.NaN(), math.Inf(1), math.Inf(-1)}[rng.Intn(3)]
 			vals[i] = Dict([]string{"a", "坏"}, []Val{vals[i], List(Num(1), Num(nf))})
@@ -222,6 +260,9 @@ func checkC19(c *Ctx) {
 	items := make([]pyDumpItem, n)
 	for i := range pv {
 		pv[i] = c19Dict(rng, 3)
+		if i%3 == 0 {
+			pv[i] = c19Rich(rng, 2)
+		}
 		for hasNonFinite(pv[i]) {
 			pv[i] = c19Dict(rng, 3)
 		}
